@@ -155,7 +155,13 @@ def make_dialect(spec, name):
         ns[k] = v
     if spec.get("no_copy"):
         ns["no_copy_collections"] = (list,)
-    return type(name, (Dialect,), ns)
+    d = type(name, (Dialect,), ns)
+    # reachable under its dotted name (generated code refers to dialects by module-qualified name)
+    d.__module__ = __name__
+    d.__qualname__ = name
+    globals()[name] = d
+    _made.append(name)
+    return d
 
 
 def draw_dialect_spec(rng, tag):
@@ -217,7 +223,10 @@ def draw_history(rng, tier):
         d = rng.choice([None, 0, 1, 2, 0, 1])
         events.append({"q": [c, slot, d]})
         calls += 1
-    return {"mixin": mixin, "classes": classes, "dialects": dialects, "events": events, "seed": rng.randrange(1 << 30)}
+    h = {"mixin": mixin, "classes": classes, "dialects": dialects, "events": events, "seed": rng.randrange(1 << 30)}
+    if mixin == "orjson" and rng.random() < 0.5:
+        h["orjson_sort"] = True
+    return h
 
 
 class Family:
@@ -259,6 +268,11 @@ class Family:
 
     def config(self, support, own=None):
         cfg = {"code_generation_options": [self.ADD] if support else []}
+        if self.h.get("orjson_sort") and self.h["mixin"] == "orjson":
+            import orjson
+
+            # an encoder option of the class: it must be honoured with and without a call dialect
+            cfg["orjson_options"] = orjson.OPT_SORT_KEYS
         base = self.dialects[own] if (own is not None and self.dialects) else None
         if self.cd is not None and base is not None:
             cfg["dialect"] = spec_merge(base, self.cd, f"Own{own}")
@@ -877,7 +891,11 @@ def run(ctx):
     t2 = time.time()
     ctx.extra["phase_seconds"] = {"merge": round(t1 - t0, 1), "uniform": round(t2 - t1, 1)}
     n = 400 if quick else 5000
-    hs = [draw_history(ctx.rng, ctx.tier) for _ in range(n)]
+    # repaired defects first: their witnesses must keep passing (they suppress nothing)
+    corpus = [f["witness"]["history"] for f in ctx.known if f.get("status") == "fixed" and isinstance(f.get("witness"), dict) and "history" in f["witness"]]
+    ctx.bump("corpus(fixed findings)", len(corpus))
+    hs = corpus + [draw_history(ctx.rng, ctx.tier) for _ in range(n)]
+    n = len(hs)
     ms = ctx.model([model_line(h) for h in hs])
     for hid, h in enumerate(hs):
         if ctx.time_left() < 40:
